@@ -2,7 +2,7 @@ use std::{num::ParseIntError, str::FromStr};
 
 use crate::{
     util::{
-        constants::{BUG_MSG, SECS_PER_DAY},
+        constants::{BUG_MSG, MAX_DATE, MIN_DATE, SECS_PER_DAY},
         date::convert::{weekdays_in_month, year_doy_to_days, year_month_to_doy},
     },
     DateTime, DateUtilities,
@@ -117,18 +117,27 @@ impl AlternateLocalTimeType {
     }
 }
 
+/// Year in which the rule is evaluated for the given timestamp.
+/// The first and the last representable year are incomplete, so the adjacent full year is used for them.
+fn rule_year(timestamp: i64) -> i32 {
+    DateTime::from_timestamp(timestamp)
+        .year()
+        .clamp(MIN_DATE.0 + 1, MAX_DATE.0 - 1)
+}
+
 fn rule_to_local_timestamp(start: &RuleDay, time: i32, timestamp: i64) -> i64 {
     let date_days = match start {
         RuleDay::JulianDayWithoutLeap(doy) => {
-            let year = DateTime::from_timestamp(timestamp).year();
+            let year = rule_year(timestamp);
             year_doy_to_days(year, *doy, true).unwrap()
         }
         RuleDay::JulianDayWithLeap(doy) => {
-            let year = DateTime::from_timestamp(timestamp).year();
-            year_doy_to_days(year, doy + 1, false).unwrap()
+            let year = rule_year(timestamp);
+            // Day 365 only exists in leap years, count on from 1 January otherwise
+            year_doy_to_days(year, 1, false).unwrap() + *doy as i32
         }
         RuleDay::MonthWeekDay(month, week, day) => {
-            let year = DateTime::from_timestamp(timestamp).year();
+            let year = rule_year(timestamp);
 
             let weekdays_in_month = weekdays_in_month(year, *month as u32, *day);
 
